@@ -77,10 +77,13 @@ class PyFunction(pyobjects.PyFunction):
 
     def get_param_names(self, special_args=True):
         # TODO: handle tuple parameters
-        result = [node.arg for node in self.arguments.args if isinstance(node, ast.arg)]
+        positional = self.arguments.posonlyargs + self.arguments.args
+        result = [node.arg for node in positional if isinstance(node, ast.arg)]
         if special_args:
             if self.arguments.vararg:
                 result.append(self.arguments.vararg.arg)
+        result.extend([node.arg for node in self.arguments.kwonlyargs])
+        if special_args:
             if self.arguments.kwarg:
                 result.append(self.arguments.kwarg.arg)
         return result
